@@ -3,6 +3,8 @@ import Drv.Gmm
 import Drv.KMeans
 import Drv.GmmState
 import Drv.Hdf5
+import Drv.LinearScoring
+import Drv.Linear
 open Lean Drv
 
 def dispatch (j : Json) : Json :=
@@ -17,6 +19,9 @@ def dispatch (j : Json) : Json :=
   | "gmm_ops" => opGmmOps j
   | "h5_machine" => opH5Machine j
   | "h5_stats" => opH5Stats j
+  | "linear_scoring" => opLinearScoring j
+  | "whiten" => opWhiten j
+  | "wccn" => opWccn j
   | "kmeans_dist" => opKMeansDist j
   | "kmeans_vw" => opKMeansVW j
   | op => obj [("err", Json.str s!"bad-op {op}")]
